@@ -31,7 +31,7 @@ def streams(rng, tier, ctx):
                 scfg = dict(E.DEFAULT_EP, maxpkt=r.pick([10_000, 100_000, 500_000]), alloc=r.pick([1_000_000, 1_500_000, 3_000_000]),
                             recv=r.pick([300_000, 1_234_567]), send=r.pick([400_000, 2_345_678]))
             sim = E.general_scenario(r, it, tier, forge=True, codec=codec, variants=(i % 2 == 0), disconnects=(i % 3 == 0), srv_cfg=scfg,
-                                     limits=(8, r.pick([8, 2])), dt_choices=(5_000_000, 50_000_000, 500_000_000))
+                                     limits=(8, r.pick([8, 2])), dt_choices=(5_000_000, 50_000_000, 500_000_000), hs_errors=(1 if i % 4 < 2 else 0))
             cid = "h%d" % i
             cases.append((cid, sim.ops)); meta[cid] = sim
     finally:
@@ -139,6 +139,21 @@ def oracle(stream, cid, ops, outs):
                 fails.append({"oracle": "limits_agree", "detail": "SYN of client %d advertises %s but the client is configured with %s" % (i, d["f"][3:6], want),
                               "signature": {"oracle": "limits_agree", "side": "client"}})
                 break
+    # --- configuration mismatches are refused: no Connect on either side for a pair in which one side's max_packet_size exceeds
+    #     the other's max_receive_alloc, whatever happens to the error frame (forged handshake frames carry compatible limits)
+    if sc:
+        for i, cc in sim.clients.items():
+            if min(cc["maxpkt"], U32) > min(sc["alloc"], U32) or min(sc["maxpkt"], U32) > min(cc["alloc"], U32):
+                forged_syn = any(d.get("forged") and d.get("kind") == "syn" for (tt, dr, q, d) in delivered if dr == "c2s" and q == i)
+                if any(tag == "C" and p == i for (t, tag, p, _) in sev) and not forged_syn:
+                    fails.append({"oracle": "config_refused", "detail": "server reported Connect for peer %d although the configurations are incompatible (client max_packet_size %d / max_receive_alloc %d, server %d / %d)" %
+                                  (i, cc["maxpkt"], cc["alloc"], sc["maxpkt"], sc["alloc"]), "signature": {"oracle": "config_refused", "side": "server"}})
+                    break
+                forged_sa = any(d.get("forged") and d.get("kind") == "synack" for (tt, dr, q, d) in delivered if dr == "s2c" and q == i)
+                if any(tag == "C" for (t, tag, _) in cev.get(i, [])) and not forged_sa:
+                    fails.append({"oracle": "config_refused", "detail": "client %d reported Connect although the configurations are incompatible (client max_packet_size %d / max_receive_alloc %d, server %d / %d)" %
+                                  (i, cc["maxpkt"], cc["alloc"], sc["maxpkt"], sc["alloc"]), "signature": {"oracle": "config_refused", "side": "client"}})
+                    break
     # --- refusals: a delivered SYN with a wrong version must be answered (if at all) by error code 0 echoing its nonce
     for (t, dr, p, d) in delivered:
         if dr == "c2s" and d.get("kind") == "syn" and int(d["f"][1]) != 3:
